@@ -1,5 +1,6 @@
 """C05 - Reads from an open file are independent of earlier reads (rule-based state machine)."""
 import io
+import os
 import itertools
 import time
 
@@ -360,8 +361,20 @@ def shrink(case, key, check_fn, deadline):
     return {'fs': case['fs'], 'ops': ops}
 
 
-_file_strategy = S.file_spec(min_segments=1, max_segments=5, max_channels=3, max_n=4, max_chunks=4, values='unique',
-                             props=False, pad=False, nodata_entries=False, names='simple', max_groups=2)
+_plain_strategy = S.file_spec(min_segments=1, max_segments=5, max_channels=3, max_n=4, max_chunks=4, values='unique',
+                              props=False, pad=False, nodata_entries=False, names='simple', max_groups=2)
+
+
+@st.composite
+def _with_continuations(draw):
+    fs = draw(_plain_strategy)
+    if draw(st.integers(0, 2)) == 0:
+        # raw-data-only segments repeating the last layout (possibly in the other byte order): they share its objects
+        fs = draw(S.with_continuation(fs))
+    return fs
+
+
+_file_strategy = _with_continuations()
 _long_strategy = S.file_spec(min_segments=101, max_segments=130, max_channels=3, max_n=2, max_chunks=2, values='unique',
                              props=False, pad=False, nodata_entries=False, names='simple', max_groups=1,
                              types=['i16', 'f64', 'str', 'u8'], absent=False)
@@ -518,6 +531,8 @@ def check_diff(case, rec):
         from props.C13 import build_file
         fs, _graph = build_file(case['scaled'])
         rec.label('scaled_channel')
+    elif case['kind'] == 'foreign_index':
+        fs = case['fs']
     else:
         fs = case['fs']
         segs = fs['segments']
@@ -532,14 +547,39 @@ def check_diff(case, rec):
     if not paths:
         return
     rec.nontrivial(len(case['ops']) >= 2)
-    ok, shared = rec.guard('open', lambda: TdmsFile.open(io.BytesIO(data), raw_timestamps=True))
-    if not ok:
+    scratch = None
+    if case.get('foreign_index') is not None:
+        # the data file sits next to the .tdms_index of ANOTHER file: reads that notice it raise - every time, not only once
+        from vf.files import scratch_dir
+        _d2, other_index, _l2 = encode_file(case['foreign_index'], with_index=True)
+        scratch = scratch_dir()
+        d = scratch.__enter__()
+        src = os.path.join(d, 'x.tdms')
+        with open(src, 'wb') as f:
+            f.write(data)
+        with open(src + '_index', 'wb') as f:
+            f.write(other_index)
+        rec.label('index_file_of_another_file')
+
+        def source():
+            return src
+    else:
+        def source():
+            return io.BytesIO(data)
+    try:
+        shared = TdmsFile.open(source(), raw_timestamps=True)
+    except Exception as e:      # noqa
+        if scratch is not None:
+            scratch.__exit__(None, None, None)
+            rec.stat('open_raised')
+            return
+        rec.violation('open:raised', describe_exc(e), key=exc_key(e))
         return
     try:
         for i, op in enumerate(case['ops']):
             rec.label('op=' + op[0])
             try:
-                with TdmsFile.open(io.BytesIO(data), raw_timestamps=True) as fresh:
+                with TdmsFile.open(source(), raw_timestamps=True) as fresh:
                     want = ('ok', _norm(_apply_diff_op(fresh, paths, op, None)))
             except Exception as e:      # noqa
                 want = ('raised', type(e).__name__)
@@ -560,6 +600,8 @@ def check_diff(case, rec):
                     return
     finally:
         shared.close()
+        if scratch is not None:
+            scratch.__exit__(None, None, None)
 
 
 @st.composite
@@ -583,6 +625,16 @@ def diff_cases(draw):
                           zero_n=False, absent=False, types=['i8', 'i16', 'i32', 'u64', 'f32', 'f64', 'ts'], values='unique',
                           names='simple', nodata_entries=False, interleaved=draw(st.booleans())))
     nseg = len(fs['segments'])
+    if draw(st.integers(0, 3)) == 0 and nseg >= 2:
+        # same channels, other per-segment lengths: its index file describes other segment positions
+        other = {'segments': [dict(sg) for sg in fs['segments']]}
+        k = draw(st.integers(0, nseg - 2))
+        sg = other['segments'][k]
+        if sg.get('nchunks') and sg.get('active'):
+            sg['nchunks'] = sg['nchunks'] + 1
+            sg['data'] = {p: list(chunks) + [chunks[-1]] for p, chunks in sg['data'].items()}
+            return {'diff': True, 'kind': 'foreign_index', 'fs': fs, 'foreign_index': other, 'trim': [0, 0],
+                    'ops': ops + [list(o) for o in ops]}
     if draw(st.booleans()):
         # the history starts at the end of a channel (the last value may sit in the incomplete chunk)
         ops.insert(0, ['index', draw(st.integers(0, 3)), -1])
